@@ -36,6 +36,9 @@ CLAIMS = {
     "C19": dict(cat="other", ref="DESIGN.md 5/C19",
         text="the map contracts of FaultLog._insert_into_map (null entry, reported entry at the reported position, strictly newest-first, nothing invented, positions within 0..62, read-through step, push-down), handle_msg/_process_msg (never raises, map timestamps always have their log entry) and the four views (never raise) are SMT-discharged on the real functions for views of at most 3 entries with unbounded indexes/timestamps; the inductive clause ('no entry believed lower than it is') and the push-down clause fail on the unchanged tree and are listed known findings with input classes outside which they are re-proved",
         note="bounded in one dimension: the number of entries of the view (<= 3; the shift heuristic only compares relative positions); trusted: pyvc semantics, z3; FaultLogEntry.from_msg by contract; timestamps are integers (the code only compares them); NOT decided: get_faultlog's request loop (_is_getting / _is_current flags), whole histories"),
+    "C03": dict(cat="proof", ref="DESIGN.md 5/C03",
+        text="for every entry of CODE_API_MAP and symbolic arguments over the documented domain: the command has the registered verb/code, its payload is in the schema regex's language, the library's own decoder accepts the frame and (where stated) the decoded payload carries the values passed in; out-of-domain zone indexes are refused -- SMT-discharged on the real constructors, Command.__init__ and parsers; six constructors violate it on the unchanged tree and are listed known findings",
+        note="trusted: pyvc semantics, z3; the temperature codec and hex_to_str by their C04/C05 contracts (modular); get_opentherm_data over all 256 msg-ids by an exhaustive native enumeration (its parity computation is outside the solver's reach) -- complete for that finite domain but not an SMT proof; set_fan_param / put_bind only for sample parameters / code lists"),
 }
 
 NA = {
